@@ -10,6 +10,7 @@ CONSTANTS
   Horizon = 6
   MaxEx = 4
   ProbeNs <- GProbesX
+  ProbeUids <- GUidsX
   Exhaustive = TRUE
   Biases <- BiasOne
   TickPct = 0
